@@ -9,6 +9,7 @@ import (
 	"sync/atomic"
 
 	otter "github.com/maypok86/otter/v2"
+	"github.com/maypok86/otter/v2/stats"
 )
 
 // Engine "lin" (C02): free-running goroutines call Set, SetIfAbsent, GetIfPresent, Compute,
@@ -55,7 +56,13 @@ func runLin(seed uint64, scale int, out string, _ string) *summary {
 		if bounded {
 			opts.MaximumSize = maximum
 		}
+		counter := stats.NewCounter()
+		opts.StatsRecorder = counter
+		var autoAll atomic.Int64
 		opts.OnAtomicDeletion = func(e otter.DeletionEvent[int, int]) {
+			if e.Cause == otter.CauseOverflow || e.Cause == otter.CauseExpiration {
+				autoAll.Add(1)
+			}
 			if (e.Cause == otter.CauseOverflow || e.Cause == otter.CauseExpiration) && e.Key < 100 {
 				ts := clock.Add(1)
 				mu.Lock()
@@ -181,6 +188,12 @@ func runLin(seed uint64, scale int, out string, _ string) *summary {
 		c.CleanUp()
 		otter.VerifHook = nil
 		sum.Cases++
+		// C20 under concurrency: evictions are counted exactly for the removals the cache performed for
+		// size (every entry weighs 1), however invalidations and replacements raced with maintenance
+		if snap := counter.Snapshot(); int64(snap.Evictions) != autoAll.Load() || int64(snap.EvictionWeight) != autoAll.Load() {
+			sum.fail("C20", "evictions-concurrent", "Evictions / EvictionWeight differ from the automatic removals the cache reported",
+				fmt.Sprintf("lin case %d bounded=%v maximum=%d: evictions=%d evictionWeight=%d automatic removals reported=%d", cn, bounded, maximum, snap.Evictions, snap.EvictionWeight, autoAll.Load()))
+		}
 		// final values (a read at the very end)
 		all := []linOp{}
 		for g := range ops {
